@@ -80,67 +80,90 @@ def run(facts):
                     else:
                         res.ok(key, b.loc(), "Ok(%s(arg))" % "(".join(steps), nontrivial=True)
                     continue
-                # visit_seq
-                eb = ExprBuilder(b, facts, inline=False)
-                pushes = []
-                hints = []
-                vec_new = []
-                for bi, t in b.calls():
-                    fn = callee(t)
-                    if fn is None:
-                        continue
-                    loc = (bi, len(b.blocks[bi]["stmts"]))
-                    p = (fn.get("res") or fn)["path"]
-                    args = [canon(eb.operand(a, loc)) for a in t["args"]]
-                    if p == "alloc::vec::Vec::<T, A>::push":
-                        pushes.append((bi, args))
-                    elif p == "alloc::vec::Vec::<T>::with_capacity":
-                        vec_new.append((bi, args))
-                    elif fn["name"] in ("extend_from_slice", "insert", "truncate", "clear", "pop", "remove", "set_len", "resize", "swap", "reverse", "sort"):
-                        probs.append("the collected Vec is also modified by %s" % fn["name"])
-                if len(pushes) != 1:
-                    probs.append("expected exactly one push site, found %d" % len(pushes))
-                else:
-                    v = pushes[0][1][1]
-                    if not any(x[0] == "ucall" and x[1].endswith("next_element") for x in walk(v)):
-                        probs.append("pushed value is not the element returned by next_element")
-                if len(vec_new) != 1:
-                    probs.append("expected one Vec::with_capacity")
-                else:
-                    cap = vec_new[0][1][0]
-                    hs = [x for x in walk(cap) if x[0] == "ucall" and x[1].endswith("size_hint")]
-                    if hs:
-                        okcap = cap[0] == "call" and cap[1].rsplit("::", 1)[-1] == "min" and any(isinstance(a, tuple) and a[0] == "const" and isinstance(a[1], int) and a[1] <= 65536 for a in cap[2])
-                        if not okcap:
-                            probs.append("size_hint flows into the capacity without a constant cap: %s" % fmt_expr(cap)[:100])
-                # size_hint used anywhere else?
-                for bi, t in b.calls():
-                    fn = callee(t)
-                    if fn is None or (fn.get("res") or fn)["path"] == "alloc::vec::Vec::<T>::with_capacity":
-                        continue
-                    loc = (bi, len(b.blocks[bi]["stmts"]))
-                    nm = fn["name"]
-                    if nm in ("unwrap_or", "min", "size_hint"):
-                        continue
-                    def cut(e):
-                        # the Vec itself is `with_capacity(min(size_hint, cap))`: that flow is the allowed one
-                        if isinstance(e, tuple) and e and e[0] == "call" and e[1] == "alloc::vec::Vec::<T>::with_capacity":
-                            return ("vec",)
-                        return tuple(cut(x) if isinstance(x, tuple) else x for x in e) if isinstance(e, tuple) else e
-                    for a in t["args"]:
-                        ea = cut(canon(eb.operand(a, loc)))
-                        if any(x[0] == "ucall" and x[1].endswith("size_hint") for x in walk(ea)):
-                            probs.append("size_hint also flows into %s" % nm)
-                if len(oks) != 1:
-                    probs.append("does not return a single Ok(..) besides error propagation")
-                else:
-                    root, steps = conv_root(oks[0][2][0])
-                    if not (isinstance(root, tuple) and root[0] == "call" and root[1] == "alloc::vec::Vec::<T>::with_capacity"):
-                        probs.append("result is not built from the collected Vec: %s" % fmt_expr(root)[:100])
-                # the loop must push before asking for the next element: push block is dominated by the next_element call of the same iteration
+                # visit_seq (the collecting loop may live in a private helper that receives the SeqAccess)
+                probs, how = check_seq(facts, b, oks, others)
                 if probs:
                     res.bad(key, b.loc(), "; ".join(probs))
                 else:
-                    res.ok(key, b.loc(), "with_capacity(min(size_hint, cap)); push(next_element()) in order; Ok(conv(values))", nontrivial=True)
+                    res.ok(key, b.loc(), how, nontrivial=True)
     res.floor("serde_items", n, 14)
     return res
+
+
+def check_seq(facts, b, oks, others, depth=0):
+    """returns (problems, how)"""
+    eb = ExprBuilder(b, facts, inline=False)
+    probs = []
+    pushes, vec_new, local_calls = [], [], []
+    for bi, t in b.calls():
+        fn = callee(t)
+        if fn is None:
+            continue
+        loc = (bi, len(b.blocks[bi]["stmts"]))
+        r = fn.get("res") or fn
+        p = r["path"]
+        args = [canon(eb.operand(a, loc)) for a in t["args"]]
+        if p == "alloc::vec::Vec::<T, A>::push":
+            pushes.append((bi, args))
+        elif p == "alloc::vec::Vec::<T>::with_capacity":
+            vec_new.append((bi, args))
+        elif fn["name"] in ("extend_from_slice", "insert", "truncate", "clear", "pop", "remove", "set_len", "resize", "swap", "reverse", "sort") and "Vec" in p:
+            probs.append("the collected Vec is also modified by %s" % fn["name"])
+        elif r.get("local") and r.get("did") is not None and any(any(x[0] == "param" for x in walk(a)) for a in args):
+            cb = facts.by_did.get(r["did"])
+            if cb is not None and "serde" in cb.id:
+                local_calls.append((cb, args))
+    if not pushes and not vec_new and len(local_calls) == 1 and depth < 2:
+        # delegate: visit_seq = Ok(conv(helper(&mut seq)?))
+        cb, args = local_calls[0]
+        if len(oks) != 1:
+            return ["does not return a single Ok(..) besides error propagation"], ""
+        root, steps = conv_root(oks[0][2][0])
+        ok_root = any(x[0] == "call" and x[1] == cb.id for x in walk(root))
+        if not ok_root:
+            return ["result is not built from the helper's collected Vec: %s" % fmt_expr(root)[:100]], ""
+        e = return_expr(cb, facts, inline=False)
+        alts = e[1] if e[0] == "phi" else (e,)
+        hoks = [a for a in alts if isinstance(a, tuple) and a[0] == "agg" and "Ok" in str(a[1])]
+        hp, hhow = check_seq(facts, cb, hoks, [a for a in alts if a not in hoks], depth + 1)
+        return hp, "via helper %s: %s" % (cb.id.rsplit("::", 1)[-1], hhow)
+    if len(pushes) != 1:
+        probs.append("expected exactly one push site, found %d" % len(pushes))
+    else:
+        v = pushes[0][1][1]
+        if not any(x[0] == "ucall" and x[1].endswith("next_element") for x in walk(v)):
+            probs.append("pushed value is not the element returned by next_element")
+    if len(vec_new) != 1:
+        probs.append("expected one Vec::with_capacity")
+    else:
+        cap = vec_new[0][1][0]
+        hs = [x for x in walk(cap) if x[0] == "ucall" and x[1].endswith("size_hint")]
+        if hs:
+            okcap = cap[0] == "call" and cap[1].rsplit("::", 1)[-1] == "min" and any(
+                isinstance(a, tuple) and a[0] == "const" and isinstance(a[1], int) and a[1] <= 65536 for a in cap[2])
+            if not okcap:
+                probs.append("size_hint flows into the capacity without a constant cap: %s" % fmt_expr(cap)[:100])
+
+    def cut(e):
+        if isinstance(e, tuple) and e and e[0] == "call" and e[1] == "alloc::vec::Vec::<T>::with_capacity":
+            return ("vec",)
+        return tuple(cut(x) if isinstance(x, tuple) else x for x in e) if isinstance(e, tuple) else e
+    for bi, t in b.calls():
+        fn = callee(t)
+        if fn is None or (fn.get("res") or fn)["path"] == "alloc::vec::Vec::<T>::with_capacity":
+            continue
+        loc = (bi, len(b.blocks[bi]["stmts"]))
+        nm = fn["name"]
+        if nm in ("unwrap_or", "min", "size_hint"):
+            continue
+        for a in t["args"]:
+            ea = cut(canon(eb.operand(a, loc)))
+            if any(x[0] == "ucall" and x[1].endswith("size_hint") for x in walk(ea)):
+                probs.append("size_hint also flows into %s" % nm)
+    if len(oks) != 1:
+        probs.append("does not return a single Ok(..) besides error propagation")
+    else:
+        root, steps = conv_root(oks[0][2][0])
+        if not (isinstance(root, tuple) and root[0] == "call" and root[1] == "alloc::vec::Vec::<T>::with_capacity"):
+            probs.append("result is not built from the collected Vec: %s" % fmt_expr(root)[:100])
+    return probs, "with_capacity(min(size_hint, cap)); push(next_element()) in order; Ok(conv(values))"
